@@ -56,7 +56,7 @@ def run(prog):
             ins_fields, taken = set(), set()
             for b in bodies:
                 for cs in b.terms.calls:
-                    if is_set_call(cs, "insert"):
+                    if is_set_call(cs, "insert") or is_set_call(cs, "extend"):
                         ins_fields |= self_fields(cs.args[0])
                     if cs.callee.name in TAKERS and "Vec" in cs.callee.key() and cs.args:
                         taken |= self_fields(cs.args[0])
